@@ -102,7 +102,7 @@ Definition emit_seq_ref : list (string * list string) :=
    ("grouping", ["expr"; "bytes:BuildTuple,arg"]);
    ("interpolation", ["const"; "expr"; "byte:FormatString"; "const"; "bytes:BuildString,arg"]);
    ("call", ["args"; "bytes:Call,arg"]);
-   ("named_variable", ["resolve"; "expr"; "varop:set_op"; "binassign"; "varop:set_op"; "bytes:?,arg"]);
+   ("named_variable", ["resolve"; "expr"; "varop:set_op"; "binassign"; "varop:set_op"; "bytes:?,arg"; "constop"]);
    ("if_statement", ["expr"; "jump:JumpIfFalse#0"; "byte:Pop"; "begin"; "block"; "end"; "jump:Jump#1";
                      "patch#0"; "byte:Pop"; "stmt"; "patch#1"]);
    ("while_statement", ["push_loop"; "expr"; "jump:JumpIfFalse#0"; "byte:Pop"; "begin"; "block"; "end";
@@ -114,7 +114,14 @@ Definition emit_seq_ref : list (string * list string) :=
    ("define_variable", ["markinit"; "byte:DefineGlobal"; "bytes:?,?"]);
    ("end_scope", ["scope_end:true"]);
    ("number", ["const"]);
-   ("string", ["const"])].
+   ("string", ["const"]);
+   ("function", ["new_compiler"; "begin"; "params"; "bytes:Construct,arg"; "block"; "finalise"; "mkconst"; "constop";
+                 "op:Closure"; "byte:?"; "byte:?"]);
+   ("lambda", ["new_compiler"; "begin"; "params"; "block"; "expr"; "byte:Return"; "finalise"; "mkconst"; "constop";
+               "op:Closure"; "byte:?"; "byte:?"]);
+   ("fn_declaration", ["parsevar"; "markinit"; "function"; "define"]);
+   ("return_statement", ["return"; "expr"; "byte:JumpFinally"; "byte:Return"]);
+   ("emit_return", ["bytes:GetLocal,arg"; "byte:Nil"; "byte:JumpFinally"; "byte:Return"])].
 
 Definition seq_is (gen : list (string * list string)) (f : string) : bool :=
   match lookup_s f gen, lookup_s f emit_seq_ref with
@@ -167,7 +174,8 @@ Definition vm_fact_names : list string :=
   ["jump_if_false_peeks"; "jump_if_false_on_falsy"; "binop_deeper_operand_first"; "equal_is_a_eq_b";
    "add_pops_b_then_a"; "add_concat_a_then_b"; "add_numbers"; "set_item_leaves_nil"; "set_item_operands";
    "not_is_not_truthy"; "negate_is_minus"; "bitnot_via_i64"; "range_end_popped_first"; "jump_forward";
-   "loop_backward"; "truthiness"].
+   "loop_backward"; "truthiness"; "call_arity_check"; "call_frame_limit"; "call_pushes_frame"; "return_shape";
+   "closure_descriptors"; "close_upvalue_top"].
 Definition vm_facts_ok (gen : list (string * bool)) : bool :=
   forallb (fun k => match lookup_s k gen with Some true => true | _ => false end) vm_fact_names.
 
